@@ -85,6 +85,13 @@ def run(ctx: core.Ctx) -> int:
                 pi, kind = rng.randrange(10, n), rng.choice(A.PATTERNS)
                 if A.plant(rows, pi, kind):
                     planted.append((pi, kind))
+
+        if n >= 11:
+            # a pattern shape inside the warm-up (index < 10) of a longer list: the answer there is
+            # False, as on the list truncated after that candle; the four patterns take turns
+            pi, kind = rng.randrange(2, 9), A.PATTERNS[k % len(A.PATTERNS)]
+            if A.plant(rows, pi, kind, early=True):
+                planted.insert(0, (pi, kind))
         probes = []
         for j in range(10):
             if planted and j < 2 * len(planted):
